@@ -136,12 +136,18 @@ def gen_payload(rng: Rng, text_only: bool = False, urlsafe: bool | None = None, 
 
 
 _EXTRA = [
-    ("typ", ["JWT", "JOSE", "application/x+jws", "tÿpé", "quote\"back\\slash"]),
-    ("cty", ["text/plain", "json", "中文"]),
+    # media types in their long form, backslashes without quotes (a JSON writer has to escape them), escapes written out
+    ("typ", ["JWT", "JOSE", "application/x+jws", "tÿpé", "quote\"back\\slash", "application/jose", "APPLICATION/JWT", "CORP\\bob", "C:\\temp\\new",
+             "esc\\u0041", "tab\there", "a/b/c"]),
+    ("cty", ["text/plain", "json", "中文", "application/json", "application/example;part=\"1/2\""]),
     ("jku", ["https://issuer.example/jwks.json", "http://a/b?c=d&e=f"]),
     ("x5t", ["dGh1bWI", "AAAA"]),
     ("x5u", ["https://x.example/cert.pem"]),
     ("x5c", [["MIIB", "MIIC"], []]),
+    # an embedded public key with its own kid / alg / use beside the header's (DPoP, ACME)
+    ("jwk", [{"kty": "EC", "crv": "P-256", "x": "f83OJ3D2xF1Bg8vub9tLe1gHMzV76e8Tus9uPHvRVEU", "y": "x_FEzRu9m36HLN_tue659LNpXW6pCyStikYjKIWI5a0",
+              "kid": "embedded-key", "alg": "ES256", "use": "sig"},
+             {"kty": "oct", "kid": "only-a-reference"}]),
 ]
 
 
@@ -304,7 +310,7 @@ class Result:
         self.merged = None
 
 
-def deliver(entry: str, ser, keyarg, detached=None, algorithms=None, registry=None) -> Result:
+def deliver(entry: str, ser, keyarg, detached=None, algorithms=None, registry=None, bare: bool = False) -> Result:
     """one delivery to a joserfc consuming entry point.  Any exception = rejection
     (its type is C16's business); a normal return = acceptance."""
     from joserfc import jws, jwt, rfc7797
@@ -312,8 +318,9 @@ def deliver(entry: str, ser, keyarg, detached=None, algorithms=None, registry=No
     kw = {}
     if registry is not None:
         kw["registry"] = registry
-    else:
+    elif not bare:
         kw["algorithms"] = algorithms if algorithms is not None else ALL_ALGS
+    # bare: neither algorithms= nor registry= (the library's defaults decide)
     if isinstance(ser, dict):
         ser = copy.deepcopy(ser)
     try:
